@@ -27,13 +27,13 @@ def build(prop):
                 return False, logs
     else:
         cmd = ["cargo", "+nightly", "build", "--profile", "relfast", "--offline", "--target", "x86_64-unknown-linux-gnu", "--no-default-features", "--features", "std optimization"]
-        p = subprocess.run(cmd, cwd=SRC, env=dict(ENV, CARGO_TARGET_DIR=os.path.join(TGT, "asan"), RUSTFLAGS="-Zsanitizer=address"), capture_output=True, text=True)
+        p = subprocess.run(cmd, cwd=SRC, env=dict(ENV, CARGO_TARGET_DIR=os.path.join(TGT, "asan"), RUSTFLAGS="-Zsanitizer=address --cfg hasenbanck_lzma_rust2_verif"), capture_output=True, text=True)
         logs.append(("asan", p.returncode, p.stderr[-800:]))
         if p.returncode != 0:
             return False, logs
         # guard-page build (stable toolchain): the chunk buffer of the range decoder ends at an inaccessible page
         cmd = ["cargo", "build", "--profile", "relfast", "--offline", "--no-default-features", "--features", "std optimization guard"]
-        p = subprocess.run(cmd, cwd=SRC, env=dict(ENV, CARGO_TARGET_DIR=os.path.join(TGT, "guard")), capture_output=True, text=True)
+        p = subprocess.run(cmd, cwd=SRC, env=dict(ENV, CARGO_TARGET_DIR=os.path.join(TGT, "guard"), RUSTFLAGS="--cfg hasenbanck_lzma_rust2_verif"), capture_output=True, text=True)
         logs.append(("guard", p.returncode, p.stderr[-800:]))
         if p.returncode != 0:
             return False, logs
